@@ -809,10 +809,33 @@ def _near_rivals(hash_mode: str, value: bytes, want: int = 2, limit: int = 1500)
     return out
 
 
+_EDGES = {
+    "lead0": lambda d: d[0] == 0,                   # the digest, read as a number, is shorter than the hash is wide
+    "lead0n": lambda d: d[0] < 16,                  # a leading zero nibble
+    "trail0": lambda d: d[-1] == 0,
+    "lead_ff": lambda d: d[0] == 0xFF,
+}
+
+
+def _edge_value(hash_mode: str, edge: str, base: bytes) -> bytes:
+    """
+    An ordinary attribute value (the base value with a counter appended) whose digest has a boundary shape; found by
+    counting, so a pure function of its arguments.
+    """
+    pred = _EDGES[edge]
+    for i in range(20000):
+        cand = base[:16] + b"#%d" % i
+        if pred(_DIGEST[hash_mode](cand)):
+            return cand
+    raise AssertionError("no value with digest shape " + edge)
+
+
 def exact_eval(case: dict) -> _Collector:
     from ipv8.attestation.wallet.bonehexact.algorithm import BonehExactAlgorithm
     c = _Collector(case)
     hash_mode, value = case["hash"], case["value"]
+    if case.get("edge"):
+        value = _edge_value(hash_mode, case["edge"], value)
     fmt = {"algorithm": "bonehexact", "key_size": case["key_size"], "hash": hash_mode}
     profile = _profile(hash_mode, value)
     n = sum(profile)
@@ -909,8 +932,9 @@ def _exact_record(ctx: Ctx, case: dict) -> _Collector | None:
     c = _limited(exact_eval, case)
     if _gave_up(ctx, c, "exact", case):
         return None
-    desc = {k: case[k] for k in ("part", "hash", "key_size", "seed", "value", "order_seed", "prefix")}
-    ctx.case(desc, c.n >= 16 and c.near > 0 and not c.fails, cls="b:" + case["hash"] + "/%d" % case["key_size"])
+    desc = {k: case.get(k) for k in ("part", "hash", "key_size", "seed", "value", "edge", "order_seed", "prefix")}
+    ctx.case(desc, c.n >= 16 and c.near > 0 and not c.fails,
+             cls="b:" + case["hash"] + "/%d" % case["key_size"] + ("/" + case["edge"] if case.get("edge") else ""))
     for k, v in c.counts.items():
         ctx.count(k, v)
     for v in c.fails.values():
@@ -929,6 +953,7 @@ def _exact_strategy(quick: bool):
         "key_size": st.just(32) if quick else st.sampled_from([32, 32, 32, 32, 32, 64]),
         "hash": st.sampled_from(["sha256_4"] * 6 + ["sha256", "sha512"]),
         "value": value,
+        "edge": st.sampled_from([None, None, None, "lead0", "lead0", "lead0n", "trail0", "lead_ff"]),
         "order_seed": st.integers(0, 2 ** 16),
         "prefix": st.integers(0, 256),
         "rivals": st.lists(value, max_size=2),
